@@ -1,7 +1,8 @@
 //! C01: every accessor handed out stays inside its parent memory and is aligned.
 //!
 //! case:  mode rootkind base len [gbase0,size0,...] [code,ty,a,b]*
-//! obs:   [class,off,len,glen,nelem,ridx]*            (one per request)
+//! obs:   first_class [class,off,len,glen,nelem,ridx]*   (one list per request; first_class repeats
+//!        the class of the first answer, 3f if there is no request)
 //!
 //! rootkind 0: VolatileSlice over a REAL buffer, mapped at the fixed address `base` (the pages it
 //!             occupies are read/write, the page before and the page after are PROT_NONE);
@@ -354,7 +355,25 @@ fn request(ar: &mut Arena, cur: Acc, code: u64, ty: u64, a: usize, b: usize) -> 
             _ => Out::Err(7),
         },
         Acc::Arr(x) => match code {
-            13 => Out::New(ar.rf(x.ref_at(a))),
+            13 => {
+                if cfg!(debug_assertions) && a < x.len() {
+                    // In builds with debug assertions std checks the precondition of ptr::offset
+                    // (address + signed offset within the address space) with a NON-UNWINDING
+                    // panic: the process would die.  Only reachable for arrays longer than
+                    // isize::MAX (fake parents).  Reported as a panic without making the call.
+                    if let (Some(byteofs), Some((p, _))) = (x.element_size().checked_mul(a), util::catch(|| x.guard())) {
+                        let in_range = if byteofs <= isize::MAX as usize {
+                            p.checked_add(byteofs).is_some()
+                        } else {
+                            (p as u128) + (byteofs as u128) >= 1u128 << 64
+                        };
+                        if !in_range {
+                            return Out::Err(5);
+                        }
+                    }
+                }
+                Out::New(ar.rf(x.ref_at(a)))
+            }
             14 => Out::New(ar.slice(x.to_slice())),
             _ => Out::Err(7),
         },
@@ -458,6 +477,9 @@ fn exec(case: &[Tok]) -> Vec<Tok> {
         drop(unsafe { Box::from_raw(g) });
     }
     let _ = root.kind;
+    // summary token for the evidence histogram: class of the first answer (3f: no request)
+    let first = out.first().map(|t| t.l()[0]).unwrap_or(0x3f);
+    out.insert(0, Tok::N(first));
     out
 }
 
